@@ -154,3 +154,18 @@ package beaconing
 //@   modifies nothing
 //@ extern (*github.com/scionproto/scion/pkg/segment/extensions/digest.Digest).Set
 //@   modifies nothing
+
+//@ # ---- C25: a beacon is propagated on an interface only if extending it by the AS behind that interface closes no
+//@ # AS loop and (unless allowed) re-enters no ISD
+//@ macro pisd(x) = uint16(uint64(x)>>48)
+//@ macro pbh(b, i) = b.Segment.ASEntries[i].Local
+//@ macro pnb(b) = len(b.Segment.ASEntries)
+//@ func (*Propagator).shouldIgnore
+//@   props C25
+//@   requires p != nil && intf != nil && bseg.Segment != nil && (forall k int :: 0 <= k && k < pnb(bseg) ==> pisd(pbh(bseg, k)) != 0)
+//@   requires intf.topoInfo.IA != 0 ==> pisd(intf.topoInfo.IA) != 0
+//@   let next = intf.topoInfo.IA
+//@   modifies nothing
+//@   ensures !result ==> forall i int :: forall j int :: 0 <= i && i < j && j < pnb(bseg) ==> pbh(bseg, i) != pbh(bseg, j)
+//@   ensures !result && next != 0 ==> forall i int :: 0 <= i && i < pnb(bseg) ==> pbh(bseg, i) != next
+//@   ensures !result && next != 0 && !p.AllowIsdLoop && pnb(bseg) > 0 ==> forall i int :: 0 <= i && i < pnb(bseg) && pisd(pbh(bseg, i)) == pisd(next) ==> pisd(pbh(bseg, pnb(bseg)-1)) == pisd(next)
